@@ -37,6 +37,11 @@ Definition phase_eqb (a b : phase) : bool :=
   | _, _ => false
   end.
 
+(* the numeric value of otelcol.State (what GetState() returns); C20/Tie.v proves these equal to the
+   constants translator T1 reads from the current Go source *)
+Definition phase_code (p : phase) : nat :=
+  match p with Starting => 0 | Running => 1 | Closing => 2 | Closed => 3 end.
+
 Inductive sig := SigHup | SigTerm | SigInt.
 
 (* ---- oracle: what generation g of the configuration does ------------------------------------
@@ -92,6 +97,7 @@ Inductive action :=
 | AShutdown (g c : nat) (ok : bool)      (* component Shutdown returned *)
 | AProvShutdown (ctx_live : bool)        (* provider.Shutdown; was the context it got still live? *)
 | ACloseChan                             (* close(shutdownChan) succeeded *)
+| ASenderPanic                           (* a provider goroutine blocked sending a notification panicked: the resolver closed the watcher channel under it *)
 | ARecovered                             (* close of the already closed channel panicked; Shutdown()'s deferred recover swallowed it *)
 | AReturn (r : result).
 
@@ -301,6 +307,14 @@ Definition take (s : cstate) (b : branch) : cstate * list action :=
   | BrCtx => if st_ctx_done s then to_final s true else (s, [])
   end.
 
+(* Resolver.Shutdown begins with close(mr.watcher): the value sitting in the 1-slot buffer stays
+   there unread, but every provider goroutine still BLOCKED in onChange behind it (the second and
+   later pending notifications) panics with "send on closed channel" — in the provider's own
+   goroutine, where nothing recovers it.  Then closeIfNeeded closes the open retrieval. *)
+Definition final_prefix (s : cstate) : list action :=
+  repeat ASenderPanic (pred (length (st_watch s))) ++
+  match st_open s with Some h => [AClose h] | None => [] end.
+
 Definition live_gen (s : cstate) : nat := match st_live s with Some g => g | None => 0 end.
 
 Definition run_step (o : oracle) (s : cstate) (b : branch) : cstate * list action :=
@@ -330,9 +344,8 @@ Definition run_step (o : oracle) (s : cstate) (b : branch) : cstate * list actio
         else (set_pc (set_live s None) (PDone DRetireFail), acts ++ [AReturn RErrRetire])
   | PFinal bg =>
       let g := live_gen s in
-      let closes := match st_open s with Some h => [AClose h] | None => [] end in
-      let pa := closes ++ [AProvShutdown (bg || negb (st_ctx_done s))] in
-      let s1 := set_prov s (S (st_prov_shut s)) None in
+      let pa := final_prefix s ++ [AProvShutdown (bg || negb (st_ctx_done s))] in
+      let s1 := set_watch (set_prov s (S (st_prov_shut s)) None) (firstn 1 (st_watch s)) in
       if svc_blocked g s then (set_pc s1 PStuck, pa ++ [ANotReady g])
       else
         let '(acts, ok) := svc_shutdown g (cfg_of o g) in
@@ -426,6 +439,7 @@ Definition is_shut (g c : nat) (a : action) : bool :=
   match a with AShutdown g' c' _ => Nat.eqb g g' && Nat.eqb c c' | _ => false end.
 Definition is_prov_shut (a : action) : bool := match a with AProvShutdown _ => true | _ => false end.
 Definition is_close_chan (a : action) : bool := match a with ACloseChan => true | _ => false end.
+Definition is_sender_panic (a : action) : bool := match a with ASenderPanic => true | _ => false end.
 Definition is_recovered (a : action) : bool := match a with ARecovered => true | _ => false end.
 Definition is_close (g : nat) (a : action) : bool := match a with AClose g' => Nat.eqb g g' | _ => false end.
 Definition is_return (a : action) : bool := match a with AReturn _ => true | _ => false end.
@@ -493,3 +507,20 @@ Definition expand (t : topo) (log : list action) : list pevent := flat_map (expa
 
 Definition is_pshut (p : nat) (e : pevent) : bool := match e with PShutdown q _ => Nat.eqb p q | _ => false end.
 Definition pcount (f : pevent -> bool) (l : list pevent) : nat := length (filter f l).
+
+(* ---- a ranking function for Run's own activity ------------------------------------------------
+   Every section Run executes strictly decreases [mu]: taking a queued event shortens a queue,
+   everything else moves the program counter towards the end; an external label raises it by at
+   most 4.  So Run executes at most mu s + 4 * (later injections) sections: it cannot be busy for
+   ever on finitely many events. *)
+Definition pc_weight (p : pc) : nat :=
+  match p with PInit => 6 | PReload => 5 | PSetup _ => 4 | PSelect => 2 | PFinal _ => 1 | PStuck | PDone _ => 0 end.
+Definition pending_count (s : cstate) : nat := length (st_sigs s) + length (st_watch s) + length (st_async s).
+Definition mu (s : cstate) : nat := 4 * pending_count s + pc_weight (st_pc s).
+
+(* a sequence of sections of Run, each enabled when it is executed *)
+Fixpoint run_enabled (o : oracle) (s : cstate) (bs : list branch) : bool :=
+  match bs with
+  | [] => true
+  | b :: r => enabled s (LRun b) && run_enabled o (fst (step o s (LRun b))) r
+  end.
